@@ -251,6 +251,19 @@ func startQProc(self string) (*qProc, error) {
 func (p *qProc) kill() {
 	close(p.stop)
 	_ = p.stdin.Close()
+	if os.Getenv("GOCOVERDIR") != "" {
+		// a coverage-instrumented harness: the child writes its counters when it exits by itself (end of input)
+		done := make(chan struct{})
+		go func() { _ = p.cmd.Wait(); close(done) }()
+		select {
+		case <-done:
+			return
+		case <-time.After(2 * time.Second):
+		}
+		_ = p.cmd.Process.Kill()
+		<-done
+		return
+	}
 	_ = p.cmd.Process.Kill()
 	_ = p.cmd.Wait()
 }
